@@ -3,6 +3,7 @@
 import glob, json, os
 HERE = os.path.dirname(os.path.dirname(os.path.abspath(__file__)))
 rows = []
+FIRST = json.load(open(os.path.join(HERE, 'seeded', 'FIRST_RUN.json')))['missed'] if os.path.exists(os.path.join(HERE, 'seeded', 'FIRST_RUN.json')) else {}
 for d in sorted(glob.glob(os.path.join(HERE, 'seeded', '*', '*'))):
     if not os.path.isdir(d):
         continue
@@ -27,7 +28,8 @@ for d in sorted(glob.glob(os.path.join(HERE, 'seeded', '*', '*'))):
 with open(os.path.join(HERE, 'seeded', 'RESULTS.md'), 'w') as f:
     f.write('# Seeded changes (written independently of /verif) and the checks that catch them\n\n')
     f.write(f'{sum(r["caught"] for r in rows)} of {len(rows)} confirmed changes are reported by the quick check of the property they break.\n\n')
-    f.write('| change | property | what was changed | needs | confirmed | quick check | reported by (failure key / obligation) |\n|---|---|---|---|---|---|---|\n')
+    f.write(f'{len([r for r in rows if r["id"] in FIRST])} of them were MISSED by the first run and led to the strengthening named in the last column.\n\n')
+    f.write('| change | property | what was changed | needs | confirmed | quick check now | reported by (failure key / obligation) | first run |\n|---|---|---|---|---|---|---|---|\n')
     for r in rows:
-        f.write(f"| {r['id']} | {r['prop']} | {r['summary']} | {r['needs']} | {r['verified']} | {'CAUGHT' if r['caught'] else 'missed (exit ' + str(r['exit']) + ')'} | {'; '.join(r['by'])} |\n")
+        f.write(f"| {r['id']} | {r['prop']} | {r['summary']} | {r['needs']} | {r['verified']} | {'CAUGHT' if r['caught'] else 'missed (exit ' + str(r['exit']) + ')'} | {'; '.join(r['by'])} | {('missed -> ' + FIRST[r['id']]) if r['id'] in FIRST else 'caught'} |\n")
 print(open(os.path.join(HERE, 'seeded', 'RESULTS.md')).read()[:1500])
